@@ -164,3 +164,122 @@ Proof.
     + intros p Hp _. subst n. rewrite Nat2Z.id, nth_error_snoc in Hp. rewrite Nat.ltb_irrefl, Nat.eqb_refl in Hp.
       injection Hp as <-. reflexivity.
 Qed.
+
+Lemma fd_with_pidx_id : forall f, fd_with_pidx f (pidx f) = f.
+Proof. intros []; reflexivity. Qed.
+
+(* branch D: nothing to do *)
+Lemma poll_notify_D : forall x s k, FdInv x s -> is_epoll s = false ->
+  pidx (fdt s k) = -1 -> wanted (fdt s k) = 0 -> PollPost x k s s.
+Proof.
+  intros x s k I E P W. unfold PollPost. split; [assumption|]. split; [apply FdStep_refl|].
+  split; [constructor; reflexivity|]. split; [intros k0; exists (pidx (fdt s k0)); symmetry; apply fd_with_pidx_id|].
+  split; [tauto|]. intros p _ H. contradiction.
+Qed.
+
+(* branch C: the events of an existing slot are rewritten *)
+Lemma poll_notify_C : forall x s k p, FdInv x s -> is_epoll s = false -> live s x k ->
+  pidx (fdt s k) <> -1 -> wanted (fdt s k) <> 0 ->
+  nth_z (pfds s) (pidx (fdt s k)) = Some p ->
+  PollPost x k s (set_poll s (set_nth (pfds s) (Z.to_nat (pidx (fdt s k))) (fst p, poll_mask (wanted (fdt s k)))) (pkeys s)).
+Proof.
+  intros x s k p I E L P W NP.
+  destruct (pidx_pos _ _ _ I E L P) as (P0 & PK & Lt).
+  assert (LEN : length (pfds s) = length (pkeys s)) by apply (fv_plen _ _ I).
+  rewrite nth_z_nat in NP by assumption.
+  set (i := Z.to_nat (pidx (fdt s k))) in *.
+  assert (FD : forall k0, exists j, fdt s k0 = fd_with_pidx (fdt s k0) j).
+  { intros k0; exists (pidx (fdt s k0)); symmetry; apply fd_with_pidx_id. }
+  assert (RS : forall a, restsame s (set_poll s a (pkeys s))) by (intros; constructor; reflexivity).
+  destruct (fv_pkey _ _ I i k PK) as (_ & _ & ev & PF). rewrite PF in NP. injection NP as <-. cbn [fst].
+  unfold PollPost. sp. split; [|split; [|split; [constructor; reflexivity|split; [exact FD|]]]].
+  - eapply FdInv_rebuild_poll with (s := s); try eassumption; try reflexivity; sp.
+    + intros; repeat split.
+    + rewrite set_nth_length. assumption.
+    + intros m k0 H. destruct (fv_pkey _ _ I m k0 H) as (A&B&ev0&C). split; [assumption|]. split; [assumption|].
+      rewrite nth_error_set_nth. destruct (Nat.eqb_spec m i) as [->|N]; cbn [andb]; [|eauto].
+      rewrite LEN. apply Nat.ltb_lt in Lt. rewrite Lt.
+      assert (k0 = k) by congruence. subst k0. eauto.
+    + intros k0 L0. apply (fv_pidx _ _ I E k0 L0).
+  - apply FdStep_poll; sp; [reflexivity|exact FD|apply RS|].
+    intros k0 N S. apply (sync_poll_transfer s _ k0 (pidx (fdt s k0))); sp; try assumption.
+    + apply RS.
+    + symmetry; apply fd_with_pidx_id.
+    + intros RG. split; [tauto|]. intros Q.
+      assert (L0 : live s x k0) by (split; [apply (fv_range _ _ I); assumption|left; assumption]).
+      destruct (pidx_pos _ _ _ I E L0 Q) as (_ & PK0 & _).
+      rewrite nth_error_set_nth. destruct (Nat.eqb_spec (Z.to_nat (pidx (fdt s k0))) i) as [Q'|Q']; [|reflexivity].
+      exfalso. apply N. rewrite Q' in PK0. congruence.
+  - split; [tauto|]. intros q Hq _. fold i in Hq. rewrite nth_error_set_nth, Nat.eqb_refl, LEN in Hq.
+    apply Nat.ltb_lt in Lt. rewrite Lt in Hq. injection Hq as <-. reflexivity.
+Qed.
+
+(* branch B: the slot is removed, the last slot takes its place *)
+Definition poll_remove (s : core) (k : Z) : core :=
+  let f := getfd s k in
+  let n := Z.of_nat (length (pfds s)) in
+  let last := n - 1 in
+  let s1 :=
+      if negb (pidx f =? last) then
+        match nth_z (pfds s) last, nth_z (pkeys s) last with
+        | Some pl, Some kl =>
+            let s' := set_poll s (set_nth (pfds s) (Z.to_nat (pidx f)) pl)
+                                 (set_nth (pkeys s) (Z.to_nat (pidx f)) kl) in
+            putfd s' kl (fd_with_pidx (getfd s' kl) (pidx f))
+        | _, _ => s
+        end
+      else s in
+  let s2 := set_poll s1 (firstn (Z.to_nat last) (pfds s1)) (firstn (Z.to_nat last) (pkeys s1)) in
+  putfd s2 k (fd_with_pidx (getfd s2 k) (-1)).
+
+Lemma poll_remove_last : forall s k, pidx (fdt s k) = Z.of_nat (length (pfds s)) - 1 ->
+  let m := Z.to_nat (Z.of_nat (length (pfds s)) - 1) in
+  poll_remove s k = putfd (set_poll s (firstn m (pfds s)) (firstn m (pkeys s))) k (fd_with_pidx (fdt s k) (-1)).
+Proof.
+  intros s k H m. unfold poll_remove, getfd. cbv zeta.
+  replace (pidx (fdt s k) =? Z.of_nat (length (pfds s)) - 1) with true by (symmetry; apply Z.eqb_eq; assumption).
+  reflexivity.
+Qed.
+
+Lemma poll_notify_B1 : forall x s k, FdInv x s -> is_epoll s = false -> live s x k ->
+  pidx (fdt s k) = Z.of_nat (length (pfds s)) - 1 -> wanted (fdt s k) = 0 -> pidx (fdt s k) <> -1 ->
+  PollPost x k s (poll_remove s k).
+Proof.
+  intros x s k I E L PL W P.
+  destruct (pidx_pos _ _ _ I E L P) as (P0 & PK & Lt).
+  assert (LEN : length (pfds s) = length (pkeys s)) by apply (fv_plen _ _ I).
+  rewrite (poll_remove_last s k PL). cbv zeta.
+  set (m := Z.to_nat (Z.of_nat (length (pfds s)) - 1)).
+  assert (Mi : m = Z.to_nat (pidx (fdt s k))) by (subst m; rewrite PL; reflexivity).
+  assert (Ml : S m = length (pkeys s)) by (subst m; lia).
+  assert (FD : forall k0, exists j, upd (fdt s) k (fd_with_pidx (fdt s k) (-1)) k0 = fd_with_pidx (fdt s k0) j).
+  { intros k0. unfold upd. destruct (Z.eqb_spec k0 k) as [->|N]; [exists (-1); reflexivity|].
+    exists (pidx (fdt s k0)). symmetry. apply fd_with_pidx_id. }
+  assert (RS : forall a b c, restsame s (set_fdt (set_poll s a b) c)) by (intros; constructor; reflexivity).
+  assert (OTH : forall k0, live s x k0 -> k0 <> k -> pidx (fdt s k0) <> -1 ->
+                (Z.to_nat (pidx (fdt s k0)) < m)%nat).
+  { intros k0 L0 N Q. destruct (pidx_pos _ _ _ I E L0 Q) as (_ & PK0 & Lt0).
+    assert (Z.to_nat (pidx (fdt s k0)) <> m) by (intro Q'; rewrite Mi in Q'; rewrite Q' in PK0; congruence). lia. }
+  unfold PollPost. sp. split; [|split; [|split; [constructor; reflexivity|split; [exact FD|]]]].
+  - eapply FdInv_rebuild_poll with (s := s); try eassumption; try reflexivity; sp.
+    + intros k0. unfold upd. destruct (Z.eqb_spec k0 k) as [->|N]; repeat split.
+    + rewrite !firstn_length. lia.
+    + intros j k0 H. rewrite nth_error_firstn in H. rewrite nth_error_firstn.
+      destruct (Nat.ltb_spec j m) as [Lj|Gj]; [|discriminate].
+      destruct (fv_pkey _ _ I j k0 H) as (A&B&C). split; [assumption|].
+      assert (k0 <> k) by (intro; subst k0; assert (j = Z.to_nat (pidx (fdt s k))) by (eapply pkeys_pos_inj; eassumption); lia).
+      rewrite upd_other by assumption. tauto.
+    + intros k0 L0. unfold upd. destruct (Z.eqb_spec k0 k) as [->|N]; [left; reflexivity|].
+      destruct (fv_pidx _ _ I E k0 L0) as [A|[A B]]; [left; assumption|right]. split; [assumption|].
+      rewrite nth_error_firstn. assert (Q : pidx (fdt s k0) <> -1) by lia.
+      pose proof (OTH k0 L0 N Q) as Lt0. apply Nat.ltb_lt in Lt0. rewrite Lt0. assumption.
+  - apply FdStep_poll; sp; [reflexivity|exact FD|apply RS|].
+    intros k0 N S. apply (sync_poll_transfer s _ k0 (pidx (fdt s k0))); sp; try assumption.
+    + apply RS.
+    + rewrite upd_other by assumption. symmetry; apply fd_with_pidx_id.
+    + intros RG. split; [tauto|]. intros Q.
+      assert (L0 : live s x k0) by (split; [apply (fv_range _ _ I); assumption|left; assumption]).
+      pose proof (OTH k0 L0 N Q) as Lt0. rewrite nth_error_firstn. apply Nat.ltb_lt in Lt0. rewrite Lt0. reflexivity.
+  - rewrite upd_same. cbn [fd_with_pidx pidx]. split; [split; intros H; exfalso; auto|].
+    intros p _ H. exfalso; auto.
+Qed.
